@@ -825,7 +825,227 @@ def c20(ctx):
             raise Inconclusive("self-test segments missing")
 
 
-CHECKS = {"C08": c08, "C20": c20, "C02": c02, "C03": c03, "C09": c09, "C01": c01, "C04": c04, "C07": c07, "C05": c05, "C06": c06}
+def c10(ctx):
+    import random
+    ctx.rule = ("cases = seeded histories of 3..7 requests over sessions {S1,S2,S3,N} x hosts x paths x backend cookie operations x client extra cookies "
+                "(class domains exported by TLC) through the real sessions.SessionHandler, judged against an independent net/http/cookiejar per session; "
+                "an eviction scenario (4 sessions, cache of 2); concurrent bursts (24 goroutines x 40 requests, shared and one-shot sessions) in a -race child "
+                "process; distinct = distinct (session:operation) sequences")
+    ctx.assumptions = ["request URL for the jar is https://<Host><path>", "exact backend view is judged for sequential histories; under concurrency only isolation, "
+                       "no leak, session-cookie rules and process survival are judged", "race reports count only with both stacks in repository code"]
+    thorough = ctx.tier == "thorough"
+    tlc_must_hold(ctx, "Sessions", "Sessions_MC.cfg", timeout=1200)
+    tlc_must_fail(ctx, "Sessions", "Sessions_Attack_UnlockedLookup.cfg")
+    gen = tlc_generate(ctx, "SessionsGen", "SessionsGen.cfg", "sessions_domains.json")
+    dom = json.load(open(gen))
+    rnd = random.Random(ctx.seed)
+    hists = []
+    # fixed shapes: set then read back, overwrite, delete, path scope, other session must not see it
+    hists.append([{"Session": "S1", "Host": "h1.example.com", "Path": "/", "Op": "set", "Extra": "none"},
+                  {"Session": "S2", "Host": "h1.example.com", "Path": "/", "Op": "set", "Extra": "one"},
+                  {"Session": "S1", "Host": "h1.example.com", "Path": "/a", "Op": "path-scoped", "Extra": "none"},
+                  {"Session": "S2", "Host": "h1.example.com", "Path": "/a/b", "Op": "none", "Extra": "none"},
+                  {"Session": "S1", "Host": "h1.example.com", "Path": "/a/b", "Op": "delete-maxage", "Extra": "two"},
+                  {"Session": "S1", "Host": "h1.example.com", "Path": "/", "Op": "none", "Extra": "same-name-as-jar"},
+                  {"Session": "N", "Host": "h1.example.com", "Path": "/", "Op": "set", "Extra": "none"},
+                  {"Session": "N", "Host": "h1.example.com", "Path": "/", "Op": "none", "Extra": "none"}])
+    for _ in range(3000 if thorough else 300):
+        n = rnd.randint(3, 7)
+        hists.append([{"Session": rnd.choice(dom["session"]), "Host": rnd.choice(dom["host"]), "Path": rnd.choice(dom["path"]),
+                       "Op": rnd.choice(dom["op"]), "Extra": rnd.choice(dom["extra"])} for _ in range(n)])
+    cpath = os.path.join(ctx.scratch, "sess_cases.json")
+    json.dump({"histories": hists}, open(cpath, "w"))
+    go_build_harness(ctx)
+    go_build_harness(ctx, out="vdrive-race", race=True)
+    events, _ = drive(ctx, "sessions", cases=cpath, timeout=3000)
+    segs = split_segments(events)
+    fails = validate_segments(ctx, "SessionsTrace", "SessionsTrace.cfg", segs, batch=150)
+    for seg, idx, out, inv in fails:
+        e = seg[min(max(idx, 0), len(seg) - 1)]
+        if e.get("ev") == "BurstDone":
+            sig = "sessions-burst:child-%s" % (e.get("report") or "failed")
+            what = "concurrent burst through the session handler ended with a %s report (in repository code: %s)" % (e.get("report"), e.get("in_repo"))
+        else:
+            sig = "%s:%s:%s" % (seg[0].get("sig"), e.get("mode"), e.get("op"))
+            what = "session %s request %s%s op=%s: backend saw %s, reference jar %s + client cookies %s, client Set-Cookie %s" % (
+                e.get("label"), e.get("host"), e.get("path"), e.get("op"), e.get("saw"), e.get("expected"), e.get("extra"), e.get("client_setcookie"))
+        report_failure(ctx, sig, what, seg=seg, tlc_out=out[-3000:])
+    good = [s for s in segs if s[0].get("sig") == "sessions-history" and not any(s is f[0] for f in fails)]
+    if good:
+        def foreign_cookie(seg):
+            for e in seg:
+                if e.get("ev") == "SessReq" and e.get("presented"):
+                    e["saw"] = e["saw"] + [["x", "OTHER~1"]]
+                    e["tags"] = e["tags"] + ["OTHER"]
+                    return True
+            return False
+
+        def leak(seg):
+            for e in seg:
+                if e.get("ev") == "SessReq" and e.get("presented"):
+                    e["client_setcookie"] = ["x"]
+                    return True
+            return False
+
+        def session_cookie_to_backend(seg):
+            for e in seg:
+                if e.get("ev") == "SessReq" and e.get("presented"):
+                    e["saw"] = e["saw"] + [[e["cookie_name"], e["presented"]]]
+                    return True
+            return False
+
+        def lost_cookie(seg):
+            for e in seg:
+                if e.get("ev") == "SessReq" and e.get("expected"):
+                    e["saw"] = [c for c in e["saw"] if c != e["expected"][0]]
+                    return True
+            return False
+        cand = [s for s in good if any(e.get("ev") == "SessReq" and e.get("presented") and e.get("expected") for e in s)]
+        selftest(ctx, "SessionsTrace", "SessionsTrace.cfg", (cand or good)[0], [("foreign-cookie", foreign_cookie), ("set-cookie-leaks", leak),
+                                                                                 ("session-cookie-reaches-backend", session_cookie_to_backend), ("jar-cookie-lost", lost_cookie)])
+
+
+def ws_model(ctx):
+    tlc_must_hold(ctx, "WsShim", "WsShim_MC.cfg", timeout=1200)
+    tlc_must_fail(ctx, "WsShim", "WsShim_Attack_CloseClosesChan.cfg")
+
+
+def ws_cases(ctx):
+    gen = tlc_generate(ctx, "WsShimGen", "WsShimGen.cfg", "ws_cases.json")
+    return json.load(open(gen))
+
+
+def ws_validate(ctx, events, label, per_case=False):
+    if per_case:
+        segs = [[{"ev": "Reset", "seg": "case", "sig": e.get("sig", "url")}, e] for e in events if e.get("ev") == "OpenCase"]
+    else:
+        segs = split_segments(events)
+    fails = validate_segments(ctx, "WsShimTrace", "WsShimTrace.cfg", segs, batch=120)
+    for seg, idx, out, inv in fails:
+        e = seg[min(max(idx, 0), len(seg) - 1)]
+        ev = {k: v for k, v in e.items() if k not in ("pid", "seq", "src")}
+        panics = [x for x in seg if x.get("ev") in ("Panic", "Wedged")]
+        if panics:
+            e = panics[0]
+            ev = {k: v for k, v in e.items() if k not in ("pid", "seq", "src")}
+        sig = "%s:%s" % (seg[0].get("sig"), e.get("ev") if e.get("ev") != "Call" else "Call-%s-%s-%s" % (e.get("kind"), e.get("arg"), e.get("status")))
+        what = "%s %s: event #%d %s is not allowed by the shim specification" % (label, seg[0].get("sig"), idx + 1, json.dumps(ev, sort_keys=True)[:400])
+        report_failure(ctx, sig, what, seg=seg, tlc_out=out[-3000:])
+    return segs, fails
+
+
+def c11(ctx):
+    ctx.rule = ("cases = seeded random histories of client batches (1,2,3,12,15 messages), backend bursts (1,2,11,25 messages) and polls over text (quotes, escapes, "
+                "astral characters), binary (arbitrary bytes), JSON with/without resource.headers (number classes incl. integers > 2^53), sizes 0..5000 B "
+                "(1 MB in thorough), protocol version 1, one third with header injection enabled; distinct = distinct batch/burst/poll shapes")
+    ctx.assumptions = ["one data post and one poll outstanding at a time, as the injected browser shim does", "payload equality is decided by the harness (bytes; JSON values with "
+                       "numbers as decimal strings for injected messages) and reported per message"]
+    ws_model(ctx)
+    go_build_harness(ctx)
+    events, _ = drive(ctx, "wsmsg", timeout=3000)
+    segs, fails = ws_validate(ctx, events, "message history")
+    good = [s for s in segs if not any(s is f[0] for f in fails) and sum(1 for e in s if e.get("ev") == "BackendRecv") >= 3]
+    if good:
+        def reorder(seg):
+            idx = [i for i, e in enumerate(seg) if e.get("ev") == "BackendRecv"]
+            seg[idx[0]]["n"], seg[idx[1]]["n"] = seg[idx[1]]["n"], seg[idx[0]]["n"]
+            return True
+
+        def duplicate(seg):
+            for i, e in enumerate(seg):
+                if e.get("ev") == "BackendRecv":
+                    seg.insert(i + 1, dict(e))
+                    return True
+            return False
+
+        def altered(seg):
+            for e in seg:
+                if e.get("ev") == "BackendRecv":
+                    e["same"] = False
+                    return True
+            return False
+
+        def poll_skips(seg):
+            for e in seg:
+                if e.get("ev") == "Call" and e.get("kind") == "poll" and e.get("status") == 200:
+                    e["first"] = e["first"] + 1
+                    return True
+            return False
+        selftest(ctx, "WsShimTrace", "WsShimTrace.cfg", good[0], [("reordered", reorder), ("duplicated", duplicate), ("payload-altered", altered), ("poll-skips-message", poll_skips)])
+
+
+def c12(ctx):
+    import random
+    ctx.rule = ("cases = call sequences of length <= 3 over {open, data, poll, close} x {valid, unknown, closed, malformed, wrong type} + {backend-send, backend-close} "
+                "enumerated by TLC (4368 sequences; seeded sample quick 150 / thorough 2500 plus fixed shapes), and gated concurrent pairs (data racing close, close "
+                "racing close) plus an ungated stress in a -race child process; distinct = distinct sequences")
+    ctx.assumptions = ["a poll on a session with nothing pending is preceded by a backend message (an empty poll legitimately waits 20 s)",
+                       "a panic recovered in a harness call goroutine counts as a panic: the agent's workers are bare goroutines"]
+    thorough = ctx.tier == "thorough"
+    ws_model(ctx)
+    cases = ws_cases(ctx)
+    rnd = random.Random(ctx.seed)
+    must = [["open", "data-valid", "close-valid"], ["open", "close-valid", "data-closed"], ["open", "close-valid", "close-closed"],
+            ["open", "backend-send", "backend-close", "poll-valid"], ["backend-close", "poll-valid", "poll-valid"], ["open", "backend-close", "data-valid"],
+            ["close-valid", "poll-closed", "data-closed"], ["data-malformed", "poll-malformed", "close-malformed"], ["data-wrongtype", "data-unknown", "poll-unknown"]]
+    seqs = must + rnd.sample(cases["seqs"], 2500 if thorough else 150)
+    ctx.extra["sequences_enumerated_by_tlc"] = len(cases["seqs"])
+    cpath = os.path.join(ctx.scratch, "ws_cases.json")
+    json.dump({"seqs": seqs, "urls": []}, open(cpath, "w"))
+    go_build_harness(ctx)
+    go_build_harness(ctx, out="vdrive-race", race=True)
+    events, _ = drive(ctx, "wscalls", cases=cpath, timeout=3000)
+    segs, fails = ws_validate(ctx, events, "call sequence")
+    good = [s for s in segs if not any(s is f[0] for f in fails) and any(e.get("ev") == "Call" and e.get("arg") == "unknown" for e in s)]
+    if good:
+        def unknown_ok(seg):
+            for e in seg:
+                if e.get("ev") == "Call" and e.get("arg") == "unknown":
+                    e["status"] = 200
+                    return True
+            return False
+
+        def no_answer(seg):
+            for e in seg:
+                if e.get("ev") == "Call":
+                    e["status"] = 0
+                    return True
+            return False
+
+        def panicked(seg):
+            for e in seg:
+                if e.get("ev") == "Final":
+                    e["panicked"] = True
+                    return True
+            return False
+        selftest(ctx, "WsShimTrace", "WsShimTrace.cfg", good[0], [("unknown-session-accepted", unknown_ok), ("call-unanswered", no_answer), ("panic", panicked)])
+
+
+def c13(ctx):
+    ctx.rule = ("cases = 20 URL syntax classes enumerated by TLC (absolute with foreign host in 4 schemes, scheme-relative, path-only, opaque, empty, userinfo, IPv6, odd/"
+                "empty port, fragment, parse errors, raw bytes, dot segments, encoded path ...) x 5 (quick) / 200 (thorough) concrete instances each as the body of a "
+                "shim open request, with a recording dialer installed in gorilla's DefaultDialer; plus requests outside the shim prefix; distinct = URL classes")
+    ctx.assumptions = ["the recording dialer refuses to connect to anything but the backend, so a foreign dial shows up as an address in the record, not as traffic"]
+    ws_model(ctx)
+    cases = ws_cases(ctx)
+    cpath = os.path.join(ctx.scratch, "ws_cases.json")
+    json.dump({"seqs": [], "urls": cases["urls"]}, open(cpath, "w"))
+    go_build_harness(ctx)
+    events, _ = drive(ctx, "wsurls", cases=cpath, timeout=3000)
+    segs, fails = ws_validate(ctx, events, "open request", per_case=True)
+    good = [s for s in segs if not any(s is f[0] for f in fails) and s[1].get("status") == 200]
+    if good:
+        def foreign(seg):
+            seg[1]["dialed"] = seg[1]["dialed"] + ["evil.example:80"]
+            return True
+
+        def path(seg):
+            seg[1]["saw_path"] = seg[1]["saw_path"] + "x"
+            return True
+        selftest(ctx, "WsShimTrace", "WsShimTrace.cfg", good[0], [("foreign-dial", foreign), ("path-changed", path)])
+
+
+CHECKS = {"C11": c11, "C12": c12, "C13": c13, "C10": c10, "C08": c08, "C20": c20, "C02": c02, "C03": c03, "C09": c09, "C01": c01, "C04": c04, "C07": c07, "C05": c05, "C06": c06}
 
 if __name__ == "__main__":
     pid = sys.argv[1]
